@@ -64,3 +64,125 @@ def bellmanFord (edges : List Edge) : Nat → Costs → Costs × Bool
 def noCosts : Costs := fun _ => none
 
 end EgglogVerif.Extract
+
+/-! ### choosing parent edges and reconstructing terms (second half of `bellman_ford`,
+`reconstruct_termdag_node`) -/
+
+namespace EgglogVerif.Extract
+
+/-- an extracted term: the row used at the root and the terms of its child classes -/
+inductive Tm where
+  | node (e : Edge) (kids : List Tm)
+
+mutual
+  /-- tree cost under `TreeAdditiveCostModel` (saturating) -/
+  def Tm.cost : Tm → Nat
+    | .node e kids => satSum e.head (costList kids)
+  def costList : List Tm → List Nat
+    | [] => []
+    | t :: ts => t.cost :: costList ts
+end
+
+abbrev Parent := Nat → Option Edge
+
+def mapOpt {α β : Type} (f : α → Option β) : List α → Option (List β)
+  | [] => some []
+  | a :: as =>
+    match f a, mapOpt f as with
+    | some b, some bs => some (b :: bs)
+    | _, _ => none
+
+/-- `reconstruct_termdag_node` (the memo cache does not change the result); fuel bounds the depth -/
+def reconstruct (parent : Parent) : Nat → Nat → Option Tm
+  | 0, _ => none
+  | fuel + 1, c =>
+    match parent c with
+    | none => none
+    | some e => (mapOpt (reconstruct parent fuel) e.children).map (Tm.node e)
+
+/-- `save_best_parent_edge`: the FIRST row (in scan order) of class `c` that is non-subsumed, has
+the best cost and whose children all have a strictly smaller rank -/
+def pickEdge (edges : List Edge) (costs : Costs) (rank : Nat → Nat) (c : Nat) : Option Edge :=
+  edges.find? fun e => !e.sub && e.target == c && edgeCost costs e == costs c && (costs c).isSome &&
+    e.children.all (fun ch => rank ch < rank c)
+
+/-- the grounded-set repair: state = (parent map, grounded classes in the order they were grounded) -/
+structure GState where
+  parent : Parent
+  grounded : List Nat
+
+def childrenGrounded (g : List Nat) (e : Edge) : Bool := e.children.all (g.contains ·)
+
+/-- phase 1, one sweep over the candidate classes `cands`: recorded edges whose children are grounded -/
+def groundRecorded (cands : List Nat) (s : GState) : GState :=
+  cands.foldl (fun s c =>
+    if s.grounded.contains c then s else
+    match s.parent c with
+    | some e => if childrenGrounded s.grounded e then { s with grounded := s.grounded ++ [c] } else s
+    | none => s) s
+
+/-- phase 2, one sweep over all rows: give an ungrounded class any best edge with grounded children -/
+def groundBest (edges : List Edge) (costs : Costs) (s : GState) : GState :=
+  edges.foldl (fun s e =>
+    if e.sub || s.grounded.contains e.target || (costs e.target).isNone || edgeCost costs e != costs e.target
+        || !childrenGrounded s.grounded e then s
+    else { parent := fun c => if c = e.target then some e else s.parent c, grounded := s.grounded ++ [e.target] }) s
+
+/-- the repair loop: phase 1 to exhaustion, then phase 2, until neither makes progress -/
+def groundLoop (edges : List Edge) (costs : Costs) (cands : List Nat) : Nat → GState → GState
+  | 0, s => s
+  | fuel + 1, s =>
+    let s1 := groundRecorded cands s
+    if s1.grounded.length ≠ s.grounded.length then groundLoop edges costs cands fuel s1
+    else
+      let s2 := groundBest edges costs s1
+      if s2.grounded.length ≠ s1.grounded.length then groundLoop edges costs cands fuel s2 else s2
+
+end EgglogVerif.Extract
+
+namespace EgglogVerif.Extract
+
+/-! ### the chronological rank (`topo_rnk`) recorded by the cost loop -/
+
+structure RState where
+  costs : Costs
+  rank : Nat → Nat
+  cnt : Nat
+
+/-- `relax_hyperedge` with the rank bookkeeping: an update stamps the target with a fresh rank -/
+def relaxR (s : RState) (e : Edge) : RState × Bool :=
+  let r := relax s.costs e
+  if r.2 then ({ costs := r.1, rank := fun c => if c = e.target then s.cnt + 1 else s.rank c, cnt := s.cnt + 1 }, true)
+  else (s, false)
+
+def passR (edges : List Edge) (s : RState) : RState × Bool :=
+  edges.foldl (fun (acc : RState × Bool) e => let r := relaxR acc.1 e; (r.1, acc.2 || r.2)) (s, false)
+
+def bellmanFordR (edges : List Edge) : Nat → RState → RState × Bool
+  | 0, s => (s, false)
+  | fuel + 1, s =>
+    let r := passR edges s
+    if r.2 then bellmanFordR edges fuel r.1 else (r.1, true)
+
+def classesOf (edges : List Edge) : List Nat := (edges.map (·.target)).eraseDups
+
+/-- the classes from which following the recorded edges terminates (closure of phase 1 only; the
+parent map is not touched) -/
+def closeRecorded (cands : List Nat) : Nat → GState → GState
+  | 0, s => s
+  | fuel + 1, s =>
+    let s1 := groundRecorded cands s
+    if s1.grounded.length ≠ s.grounded.length then closeRecorded cands fuel s1 else s1
+
+/-- the whole of `bellman_ford`: costs, rank-guarded edges, grounded-set repair when some costed
+class was left without an edge.  Returns the final parent map, the classes from which
+reconstruction is guaranteed (in grounding order), the costs, and whether the repair ran. -/
+def extractAll (edges : List Edge) (fuel : Nat) : GState × Costs × Bool :=
+  let s := (bellmanFordR edges fuel ⟨noCosts, fun _ => 0, 0⟩).1
+  let parent0 : Parent := fun c => pickEdge edges s.costs s.rank c
+  let cands := classesOf edges
+  let unresolved := cands.any fun c => (s.costs c).isSome && (parent0 c).isNone
+  if unresolved then (groundLoop edges s.costs cands fuel ⟨parent0, []⟩, s.costs, true)
+  else (closeRecorded cands fuel ⟨parent0, []⟩, s.costs, false)
+
+end EgglogVerif.Extract
